@@ -2,8 +2,8 @@
 \* envelopeCfg: constants calibrated on the unchanged tree); this file holds the
 \* same values for manual runs:  CASES=records.ndjson OUT=verdict.ndjson tlc -config Trace_Envelope.cfg Trace_Envelope.tla
 SPECIFICATION Spec
-CONSTANTS CpuFloorUs = 10000000
-  CpuPerKiBUs = 40000
+CONSTANTS CpuFloorUs = 15000000
+  CpuPerKiBUs = 100000
   AllocFloorKiB = 163840
   AllocPerKiB = 4096
   MaxLenKiB = 65536
